@@ -121,6 +121,13 @@ class SArr(_np.ndarray):
             pass
         else:
             value = _lift_any(value)
+        if self._dt is not None and self._dt.kind == "f":
+            # numpy discards the imaginary part when a complex value is stored into a float array (ComplexWarning)
+            if isinstance(value, SC):
+                value = value.re
+            elif isinstance(value, _np.ndarray) and value.dtype == object and value.size and \
+                    builtins.any(isinstance(v, SC) for v in value.ravel()):
+                value = _map(value, lambda v: v.re if isinstance(v, SC) else v)
         _np.ndarray.__setitem__(self, key, value)
 
     def __getitem__(self, key):
@@ -246,6 +253,20 @@ def f_max(a, axis=None, out=None, keepdims=False, **kw):
     if isinstance(a, _np.ndarray) and a.dtype == object:
         return _fold_minmax(a, axis, keepdims, False)
     return _np.max(a, axis=axis, keepdims=keepdims, **kw)
+
+
+class DArr(SArr):
+    """SArr that also *reports* the declared dtype (for code that branches on `arr.dtype == "complex128"`)"""
+
+    @property
+    def dtype(self):
+        return self._dt if self._dt is not None else _np.ndarray.dtype.__get__(self)
+
+
+def declared(arr, dt):
+    r = arr.view(DArr)
+    r._dt = _np.dtype(dt)
+    return r
 
 
 def _boolify(x):
